@@ -12,7 +12,7 @@ MANIFEST = {
     "technique": "Rocq proof by induction over all expression trees about a model of operate_with_units / propagate_units whose "
                  "operator table and exponent arithmetic are regenerated from units.py on every run + vm_compute correspondence "
                  "(exhaustive small scope and random trees) + independent Fraction dimensional-analysis oracle",
-    "level_text": "Machine-checked theorems (C08_dim — which includes "a warning is issued exactly on a genuine mismatch" —, C08_order_insensitive, C08_cancel, C08_no_zero_exponents) "
+    "level_text": "Machine-checked theorems (C08_dim — which includes 'a warning is issued exactly on a genuine mismatch' —, C08_order_insensitive, C08_cancel, C08_no_zero_exponents) "
                   "about the Gallina model of unit propagation: for every expression tree over {+,-,*,/,constant power,sqrt,neg} whose "
                   "non-constant operands carry a dimension, the propagated unit denotes the dimension given by dimensional analysis, a "
                   "warning is issued exactly on a genuine mismatch (then the result has no unit), and operand units that differ only in the "
